@@ -3,13 +3,13 @@ C19 — state that outlives one call, part 2: the `DiskCache` a caller may pass 
 
   1 `DiskCache` refines `dict` for every sequence of stores in which bytes are never stored under a key that holds an
     object (`disk_refines_dict`); without that discipline it does not (`Witness.C19.diskcache_stale_object`).
-  3 what `add_links` leaves on the boxes (`box.link_annotation`): a write tags exactly the boxes of its kept links with
-    annotations of its own PDF — when it starts from boxes no earlier write touched, or when none of its links is
-    dropped (`write_tags_current_partial`); the same page list written twice tags the same boxes (`write_twice_same_boxes`).
-    Full statement false: `Witness.C19.stale_annotation_after_full_write` (known finding `stale-link-annotation`).
+  3 what `add_links` leaves on the boxes (`box.link_annotation`): since 974ea74 `generate_pdf` resets the boxes of the
+    page list first, so a write tags exactly the boxes of its kept links with annotations of its own PDF whatever was
+    written before (`write_tags_current`, full strength; `write_history_independent`); the same page list written twice
+    tags the same boxes (`write_twice_same_boxes`).  Known finding `stale-link-annotation`: fixed.
   4 `RasterImage.get_x_object`: with ratio 1 the image object is not modified (`ratio_one_pure`); a thumbnail call
     replaces the stored data (`Witness.C19.thumbnail_replaces_source`, known finding `dpi-thumbnail-replaces-source`).
-  2 `get_image_from_uri` keeps the discipline: image objects live under `f'{url} {orientation}'` keys, bytes under
+  2 `get_image_from_uri` keeps the discipline: image objects live under `f'{url} {orientation} {options…}'` keys, bytes under
     `LazyImage` data keys, and the two key families are disjoint (`C19.dataKey_ne_keyStr`); so everything proved about
     the dict model (`C19.cache_transparent`) holds when the cache is a `DiskCache` (`getImage_on_disk`).
 -/
@@ -101,7 +101,7 @@ def insertAll (c : Cache) (l : List (String × Entry)) : Cache := l.foldl (fun c
 
 /-- The two key families of the image cache. -/
 def WellKinded (k : String) (v : Entry) : Prop :=
-  (isBytes v = true → ∃ id dpi, k = dataKey id dpi) ∧ (isBytes v = false → ∃ u o, k = keyStr u o)
+  (isBytes v = true → ∃ id dpi, k = dataKey id dpi) ∧ (isBytes v = false → ∃ u o p, k = keyStr u o p)
 
 /-- Every entry of a cache sits under a key of its own family. -/
 def CacheWellKinded (c : Cache) : Prop := ∀ k v, lookup c k = some v → WellKinded k v
@@ -124,9 +124,9 @@ theorem disk_refines_dict (l : List (String × Entry)) (d : Disk) (c : Cache) (h
         exfalso
         have hw : isBytes w = false := hs.1 k w hm
         have hcw : lookup c k = some w := by rw [h k, hm]
-        obtain ⟨u, o, e1⟩ := (hc k w hcw).2 hw
+        obtain ⟨u, o, p, e1⟩ := (hc k w hcw).2 hw
         obtain ⟨id, dpi, e2⟩ := hkv.1 hb
-        exact dataKey_ne_keyStr id dpi u o (e2.symm.trans e1)
+        exact dataKey_ne_keyStr id dpi u o p (e2.symm.trans e1)
     have hc' : CacheWellKinded (ImageCache.insert c k v) := by
       intro k' v' hl'
       rw [lookup_insert] at hl'
@@ -150,26 +150,26 @@ private theorem decode_cache (opts : Opts) (c : Cache) (url key forced : String)
     split_ifs <;> first | exact Or.inl rfl | exact (makeRaster_value opts c key blob r file o).2
 
 /-- The stores of one `get_image_from_uri` call: at most one bytes entry under a data key, then the image under its
-`f'{url} {orientation}'` key — each in its own key family. -/
+`f'{url} {orientation} {options…}'` key — each in its own key family. -/
 theorem getImage_stores (f : Fetcher) (opts : Opts) (c : Cache) (url forced : String) (o : Orientation) :
     ∃ l, (getImage f opts c url forced o).cache = insertAll c l ∧ ∀ e ∈ l, WellKinded e.1 e.2 := by
-  have himg : ∀ i : Option Img, WellKinded (keyStr url o) (.image i) :=
-    fun i => ⟨fun h => (by cases h), fun _ => ⟨url, o, rfl⟩⟩
-  cases hl : lookup c (keyStr url o) with
+  have himg : ∀ i : Option Img, WellKinded (keyStr url o opts) (.image i) :=
+    fun i => ⟨fun h => (by cases h), fun _ => ⟨url, o, opts, rfl⟩⟩
+  cases hl : lookup c (keyStr url o opts) with
   | some e => exact ⟨[], by simp [getImage, hl, insertAll], by simp⟩
   | none =>
     cases hf : f url with
     | raises =>
-      exact ⟨[(keyStr url o, .image none)], by simp [getImage, hl, hf, insertAll], by
+      exact ⟨[(keyStr url o opts, .image none)], by simp [getImage, hl, hf, insertAll], by
         intro e he; simp only [List.mem_singleton] at he; subst he; exact himg none⟩
     | malformed => exact ⟨[], by simp [getImage, hl, hf, insertAll], by simp⟩
     | ok mime file blob =>
-      rcases decode_cache opts c url (keyStr url o) forced mime file blob o with hd | ⟨p, hd⟩
-      · refine ⟨[(keyStr url o, .image (decode opts c url (keyStr url o) forced mime file blob o).1)], ?_, ?_⟩
+      rcases decode_cache opts c url (keyStr url o opts) forced mime file blob o with hd | ⟨p, hd⟩
+      · refine ⟨[(keyStr url o opts, .image (decode opts c url (keyStr url o opts) forced mime file blob o).1)], ?_, ?_⟩
         · simp [getImage, hl, hf, insertAll, hd]
         · intro e he; simp only [List.mem_singleton] at he; subst he; exact himg _
-      · refine ⟨[(dataKey (imageId (keyStr url o)) opts.dpi, .bytes p),
-          (keyStr url o, .image (decode opts c url (keyStr url o) forced mime file blob o).1)], ?_, ?_⟩
+      · refine ⟨[(dataKey (imageId (keyStr url o opts)) opts.dpi, .bytes p),
+          (keyStr url o opts, .image (decode opts c url (keyStr url o opts) forced mime file blob o).1)], ?_, ?_⟩
         · simp [getImage, hl, hf, insertAll, hd]
         · intro e he
           simp only [List.mem_cons, List.not_mem_nil, or_false] at he
@@ -192,26 +192,27 @@ theorem getImage_on_disk (f : Fetcher) (opts : Opts) (d : Disk) (c : Cache) (h :
 
 /-- The same for a whole history of calls from an empty `DiskCache`: after every call the folder and the memory part
 together answer as the dict of the model does. -/
-theorem history_on_disk (f : Fetcher) (opts : Opts) (calls : List Call) (d : Disk) (c : Cache) (h : Refines d c)
+theorem history_on_disk (f : Fetcher) (calls : List Call) (d : Disk) (c : Cache) (h : Refines d c)
     (hs : Sorted d) (hc : CacheWellKinded c) :
-    ∀ r ∈ runCalls f opts c calls, ∃ d', Refines d' r.cache ∧ Sorted d' := by
+    ∀ r ∈ runCalls f c calls, ∃ d', Refines d' r.cache ∧ Sorted d' := by
   induction calls generalizing d c with
   | nil => intro r hr; simp [runCalls] at hr
   | cons call rest ih =>
-    obtain ⟨l, _, r1, r2, r3⟩ := getImage_on_disk f opts d c h hs hc call.url call.forced call.orientation
+    obtain ⟨l, _, r1, r2, r3⟩ := getImage_on_disk f call.opts d c h hs hc call.url call.forced call.orientation
     intro r hr
     simp only [runCalls, List.mem_cons] at hr
     rcases hr with hr | hr
     · subst hr; exact ⟨_, r1, r2⟩
     · exact ih _ _ r1 r2 r3 r hr
 
-example : Refines (storeAll DiskCache.empty [("u none", .image none), (dataKey "i" none, .bytes (.orig 1))])
-    (insertAll [] [("u none", .image none), (dataKey "i" none, .bytes (.orig 1))]) :=
+example : Refines (storeAll DiskCache.empty [(keyStr "u" .none ⟨false, none, none⟩, .image none),
+      (dataKey "i" none, .bytes (.orig 1))])
+    (insertAll [] [(keyStr "u" .none ⟨false, none, none⟩, .image none), (dataKey "i" none, .bytes (.orig 1))]) :=
   (disk_refines_dict _ _ _ refines_empty.1 refines_empty.2 (by intro k v h; simp [lookup] at h) (by
     intro e he
     simp only [List.mem_cons, List.not_mem_nil, or_false] at he
     rcases he with he | he <;> subst he
-    · exact ⟨fun h => (by cases h), fun _ => ⟨"u", .none, rfl⟩⟩
+    · exact ⟨fun h => (by cases h), fun _ => ⟨"u", .none, ⟨false, none, none⟩, rfl⟩⟩
     · exact ⟨fun _ => ⟨"i", none, rfl⟩, fun h => (by cases h)⟩)).1
 
 /-! ## 3 link annotations left on the boxes -/
@@ -277,59 +278,226 @@ theorem annotOf_addLinks (pdf : Nat) (names : List String) (links : List BoxLink
         · rintro ⟨l', h1, h2⟩; exact ⟨l', by simp [h1], h2⟩
       simp only [this]
 
-/-- Every `Link` tag of a write refers either to an annotation of the PDF being written, or to what an earlier write
-left on a box none of whose links is annotated now. -/
-theorem write_tags (pdf : Nat) (names : List String) (links : List BoxLink) (st : Annots) :
-    ∀ t ∈ (write pdf names links st).1,
-      t.2 = pdf ∨ (annotOf st t.1 = some t.2 ∧ ¬ ∃ l ∈ links, l.box = t.1 ∧ annotated names l = true) := by
-  intro t ht
-  simp only [write, tagged, List.mem_filterMap] at ht
-  obtain ⟨l, _, hl⟩ := ht
-  rw [annotOf_addLinks] at hl
-  by_cases h : ∃ l' ∈ links, l'.box = l.box ∧ annotated names l' = true
-  · simp only [h, if_true, Option.map_some, Option.some.injEq] at hl
-    subst hl; exact Or.inl rfl
-  · simp only [h, if_false] at hl
-    cases ha : annotOf st l.box with
-    | none => simp [ha] at hl
-    | some p =>
-      simp only [ha, Option.map_some, Option.some.injEq] at hl
-      subst hl
-      exact Or.inr ⟨ha, h⟩
+theorem annotOf_clearAnnot (st : Annots) (box b : Nat) :
+    annotOf (clearAnnot st box) b = if box = b then none else annotOf st b := by
+  induction st with
+  | nil => by_cases h : box = b <;> simp [clearAnnot, annotOf, h]
+  | cons e rest ih =>
+    obtain ⟨b', p'⟩ := e
+    have ih' : annotOf (List.filter (fun e => decide (e.1 ≠ box)) rest) b = if box = b then none else annotOf rest b := ih
+    by_cases h1 : b' = box
+    · subst h1
+      by_cases h2 : b' = b
+      · simp [clearAnnot, h2]
+        simpa [h2] using ih'
+      · simp only [clearAnnot, ne_eq, not_true_eq_false, decide_false, Bool.false_eq_true, not_false_eq_true,
+          List.filter_cons_of_neg, annotOf, h2, if_false]
+        simpa [h2] using ih'
+    · by_cases h2 : b' = b
+      · subst h2
+        have h3 : ¬ box = b' := fun e => h1 e.symm
+        simp [clearAnnot, annotOf, h1, h3]
+      · simp only [clearAnnot, ne_eq, h1, not_false_eq_true, decide_true, List.filter_cons_of_pos, annotOf, h2,
+          if_false]
+        exact ih'
 
-/-- **write_tags_current**.  Full statement (false, `Witness.C19.stale_annotation_after_full_write`): every tag of a
-write refers to the PDF being written, whatever was written before.  Proved when no earlier write touched the boxes,
-or when every link of the page list is annotated now (nothing is dropped). -/
-theorem write_tags_current_partial (pdf : Nat) (names : List String) (links : List BoxLink) (st : Annots)
-    (h : st = [] ∨ ∀ l ∈ links, annotated names l = true) :
+/-- After the reset at the head of `generate_pdf`, a box of the page list holds nothing, any other box what it held. -/
+theorem annotOf_resetLinks (links : List BoxLink) (st : Annots) (b : Nat) :
+    annotOf (resetLinks st links) b = if ∃ l ∈ links, l.box = b then none else annotOf st b := by
+  induction links generalizing st with
+  | nil => simp [resetLinks]
+  | cons l rest ih =>
+    simp only [resetLinks]
+    rw [ih, annotOf_clearAnnot]
+    by_cases hr : ∃ l' ∈ rest, l'.box = b
+    · have : ∃ l' ∈ l :: rest, l'.box = b := by obtain ⟨l', h1, h2⟩ := hr; exact ⟨l', by simp [h1], h2⟩
+      rw [if_pos hr, if_pos this]
+    · by_cases hb : l.box = b
+      · have : ∃ l' ∈ l :: rest, l'.box = b := ⟨l, by simp, hb⟩
+        rw [if_neg hr, if_pos hb, if_pos this]
+      · have : ¬ ∃ l' ∈ l :: rest, l'.box = b := by
+          rintro ⟨l', h1, h2⟩
+          simp only [List.mem_cons] at h1
+          rcases h1 with h1 | h1
+          · subst h1; exact hb h2
+          · exact hr ⟨l', h1, h2⟩
+        rw [if_neg hr, if_neg hb, if_neg this]
+
+/-- What a box of the page list holds when the pages are painted: an annotation of the PDF being written if one of
+its links is annotated now, nothing otherwise — whatever earlier writes left. -/
+theorem annotOf_write (pdf : Nat) (names : List String) (links : List BoxLink) (st : Annots) (l : BoxLink)
+    (hl : l ∈ links) :
+    annotOf (write pdf names links st).2 l.box =
+      if ∃ l' ∈ links, l'.box = l.box ∧ annotated names l' = true then some pdf else none := by
+  simp only [write]
+  rw [annotOf_addLinks, annotOf_resetLinks]
+  have : ∃ l' ∈ links, l'.box = l.box := ⟨l, hl, rfl⟩
+  simp only [this, if_true]
+
+/-- **write_tags_current** (full strength since 974ea74; was `write_tags_current_partial`, under the hypothesis that no
+earlier write touched the boxes or that no link of the page list is dropped — known finding `stale-link-annotation`,
+now fixed): every `Link` tag of a write refers to an annotation of the PDF being written, whatever was written
+before. -/
+theorem write_tags_current (pdf : Nat) (names : List String) (links : List BoxLink) (st : Annots) :
     ∀ t ∈ (write pdf names links st).1, t.2 = pdf := by
   intro t ht
-  rcases write_tags pdf names links st t ht with h1 | ⟨h1, h2⟩
-  · exact h1
-  · rcases h with h | h
-    · subst h; simp [annotOf] at h1
-    · exfalso
-      simp only [write, tagged, List.mem_filterMap] at ht
-      obtain ⟨l, hl, hl2⟩ := ht
-      have hb : l.box = t.1 := by
-        cases ha : annotOf (addLinks pdf names st links) l.box with
-        | none => simp [ha] at hl2
-        | some p => simp only [ha, Option.map_some, Option.some.injEq] at hl2; rw [← hl2]
-      exact h2 ⟨l, hl, hb, h l hl⟩
+  have hw : (write pdf names links st).1 = tagged (write pdf names links st).2 links := rfl
+  rw [hw] at ht
+  simp only [tagged, List.mem_filterMap] at ht
+  obtain ⟨l, hl, hl2⟩ := ht
+  rw [annotOf_write pdf names links st l hl] at hl2
+  by_cases h : ∃ l' ∈ links, l'.box = l.box ∧ annotated names l' = true
+  · simp only [h, if_true, Option.map_some, Option.some.injEq] at hl2
+    subst hl2; rfl
+  · simp [h] at hl2
 
-/-- The same page list written twice (the same `Document`, `write_pdf` called again) tags the same boxes; the second
-time all annotated ones refer to the second PDF. -/
-theorem write_twice_same_boxes (p1 p2 : Nat) (names : List String) (links : List BoxLink) (st : Annots) :
-    ((write p2 names links (write p1 names links st).2).1).map (·.1) = ((write p1 names links st).1).map (·.1) := by
-  simp only [write, tagged, List.map_filterMap]
+/-- **write_history_independent**: the tags of a write are those of the same write on boxes nothing was ever written
+from — the painted `Link` structure of a `write_pdf` does not depend on the earlier `write_pdf` calls (of this
+`Document`, of a copy sharing its pages) at all. -/
+theorem write_history_independent (pdf : Nat) (names : List String) (links : List BoxLink) (st : Annots) :
+    (write pdf names links st).1 = (write pdf names links []).1 := by
+  have hw : ∀ s, (write pdf names links s).1 = tagged (write pdf names links s).2 links := fun _ => rfl
+  rw [hw st, hw []]
+  simp only [tagged]
   apply List.filterMap_congr
   intro l hl
-  rw [annotOf_addLinks, annotOf_addLinks]
+  rw [annotOf_write pdf names links st l hl, annotOf_write pdf names links [] l hl]
+
+/-- The same page list written twice (the same `Document`, `write_pdf` called again) tags the same boxes; the second
+time all of them refer to the second PDF (`write_tags_current`). -/
+theorem write_twice_same_boxes (p1 p2 : Nat) (names : List String) (links : List BoxLink) (st : Annots) :
+    ((write p2 names links (write p1 names links st).2).1).map (·.1) = ((write p1 names links st).1).map (·.1) := by
+  have hw : ∀ p s, (write p names links s).1 = tagged (write p names links s).2 links := fun _ _ => rfl
+  rw [hw p2, hw p1]
+  simp only [tagged, List.map_filterMap]
+  apply List.filterMap_congr
+  intro l hl
+  rw [annotOf_write p2 names links _ l hl, annotOf_write p1 names links st l hl]
   by_cases h : ∃ l' ∈ links, l'.box = l.box ∧ annotated names l' = true
   · simp [h]
   · simp only [h, if_false]
 
+/-- **writes_history_independent** (document level): in any history of `write_pdf` calls over the same boxes — the
+`Document` itself written repeatedly, copies of any selections, in any order — the `Link` tags of the `i`-th write are
+those of that write made alone on fresh boxes; in particular they all refer to its own PDF.  (This is the function the
+`write-state` correspondence section compares with the real `write_pdf` sequence.) -/
+theorem writes_history_independent (pdf : Nat) (st : Annots) (ws : List (List String × List BoxLink)) (i : Nat)
+    (w : List String × List BoxLink) (hw : ws[i]? = some w) :
+    (runWrites pdf st ws)[i]? = some (write (pdf + i) w.1 w.2 []).1 := by
+  induction ws generalizing pdf st i with
+  | nil => simp at hw
+  | cons w0 rest ih =>
+    cases i with
+    | zero =>
+      simp only [List.getElem?_cons_zero, Option.some.injEq] at hw
+      subst hw
+      simp only [runWrites, List.getElem?_cons_zero, Nat.add_zero]
+      rw [write_history_independent]
+    | succ j =>
+      simp only [List.getElem?_cons_succ] at hw
+      simp only [runWrites, List.getElem?_cons_succ]
+      rw [ih (pdf + 1) _ j hw]
+      have : pdf + 1 + j = pdf + (j + 1) := by omega
+      rw [this]
+
+theorem writes_tags_current (pdf : Nat) (st : Annots) (ws : List (List String × List BoxLink)) (i : Nat)
+    (tags : List (Nat × Nat)) (h : (runWrites pdf st ws)[i]? = some tags) : ∀ t ∈ tags, t.2 = pdf + i := by
+  have hlen : ∀ (ws : List (List String × List BoxLink)) (pdf : Nat) (st : Annots),
+      (runWrites pdf st ws).length = ws.length := by
+    intro ws
+    induction ws with
+    | nil => intro pdf st; rfl
+    | cons w rest ih => intro pdf st; simp [runWrites, ih]
+  have hi : i < ws.length := by
+    have := (List.getElem?_eq_some_iff.mp h).1
+    rwa [hlen] at this
+  have hw : ws[i]? = some ws[i] := List.getElem?_eq_getElem hi
+  rw [writes_history_independent pdf st ws i _ hw] at h
+  cases h
+  exact write_tags_current _ _ _ _
+
 example : (write 1 ["a"] [⟨1, .internal, "a"⟩, ⟨2, .external, "u"⟩] []).1 = [(1, 1), (2, 1)] := by decide
+
+/-- Non-vacuity: whole document, then the copy of its first page, then the whole document again. -/
+example :
+    let page1 : List BoxLink := [⟨7, .internal, "b"⟩, ⟨8, .external, "u"⟩]
+    runWrites 1 [] [(["b"], page1), ([], page1), (["b"], page1)] =
+      [[(7, 1), (8, 1)], [(8, 2)], [(7, 3), (8, 3)]] := by decide
+
+/-- Regression example for the repaired `stale-link-annotation` (the input of the former witness
+`stale_annotation_after_full_write`): page 1 links to an anchor `b` on page 2.  Writing the whole document (PDF 1) and
+then the copy of page 1 alone (PDF 2: `b` is not anchored, `resolve_links` drops the link) tags nothing in PDF 2 — as
+when the copy is written first. -/
+example :
+    let page1 := [(⟨7, .internal, "b"⟩ : BoxLink)]
+    let full := write 1 ["b"] page1 []
+    full.1 = [(7, 1)] ∧ (write 2 [] page1 full.2).1 = [] ∧ (write 2 [] page1 []).1 = [] := by decide
+
+/-! ### tie between the two models of `add_links` (coordinates in `Model/PdfZoom`, box state in `Model/WriteState`) -/
+
+/-- A link of a page: the identity of its box (`WriteState`) and its rectangle (`PdfZoom`). -/
+def asLink (l : BoxLink × Rect) : Link := ⟨l.1.kind, l.1.target, l.2⟩
+
+/-- `resolve_links` keeps the same links in both models. -/
+theorem keepLink_eq_kept (names : List String) (l : BoxLink × Rect) : keepLink names (asLink l) = kept names l.1 := rfl
+
+/-- **The annotations written for a page are exactly those of the links whose box `add_links` annotates**, in order:
+the `/Annots` of `Model/PdfZoom.annots` after `resolve_links` and the `box.link_annotation` stores of
+`Model/WriteState.addLinks` select the same links. -/
+theorem annots_eq_annotated (m : PdfZoom.Matrix) (names : List String) (ls : List (BoxLink × Rect)) :
+    PdfZoom.annots m ((ls.map asLink).filter (keepLink names)) =
+      (ls.filter (fun l => annotated names l.1)).map (fun l => ⟨l.1.kind, l.1.target, PdfZoom.linkRect m l.2⟩) := by
+  induction ls with
+  | nil => rfl
+  | cons l rest ih =>
+    have ih' := ih
+    simp only [PdfZoom.annots] at ih' ⊢
+    simp only [List.map_cons, List.filter_cons]
+    by_cases hk : kept names l.1 = true
+    · have hk' : keepLink names (asLink l) = true := by rw [keepLink_eq_kept]; exact hk
+      by_cases ha : l.1.kind = .attachment
+      · have h1 : decide ((asLink l).kind ≠ .attachment) = false := by simp [asLink, ha]
+        have h2 : annotated names l.1 = false := by simp [annotated, ha]
+        simp only [hk', if_true, List.filter_cons, h1, h2, Bool.false_eq_true, if_false]
+        exact ih'
+      · have h1 : decide ((asLink l).kind ≠ .attachment) = true := by simp [asLink, ha]
+        have h2 : annotated names l.1 = true := by simp [annotated, hk, ha]
+        simp only [hk', if_true, List.filter_cons, h1, h2, List.map_cons, List.cons.injEq]
+        exact ⟨rfl, ih'⟩
+    · have hk' : keepLink names (asLink l) = false := by
+        rw [keepLink_eq_kept]; simpa using hk
+      have h2 : annotated names l.1 = false := by
+        have : kept names l.1 = false := by simpa using hk
+        simp [annotated, this]
+      simp only [hk', h2, Bool.false_eq_true, if_false]
+      exact ih'
+
+/-- **A box is tagged `Link` in a PDF iff that PDF holds a link annotation for one of its links** — whatever was
+written before: every `OBJR` that `pdfua` emits refers to an annotation object of the same file. -/
+theorem tagged_iff_annotated (pdf : Nat) (names : List String) (links : List BoxLink) (st : Annots) (b : Nat) :
+    (b, pdf) ∈ (write pdf names links st).1 ↔ ∃ l ∈ links, l.box = b ∧ annotated names l = true := by
+  have hw : (write pdf names links st).1 = tagged (write pdf names links st).2 links := rfl
+  rw [hw]
+  simp only [tagged, List.mem_filterMap]
+  constructor
+  · rintro ⟨l, hl, h⟩
+    rw [annotOf_write pdf names links st l hl] at h
+    by_cases hx : ∃ l' ∈ links, l'.box = l.box ∧ annotated names l' = true
+    · simp only [hx, if_true, Option.map_some, Option.some.injEq, Prod.mk.injEq] at h
+      obtain ⟨l', h1, h2, h3⟩ := hx
+      exact ⟨l', h1, h2.trans h.1, h3⟩
+    · simp [hx] at h
+  · rintro ⟨l, hl, hb, ha⟩
+    refine ⟨l, hl, ?_⟩
+    rw [annotOf_write pdf names links st l hl]
+    have : ∃ l' ∈ links, l'.box = l.box ∧ annotated names l' = true := ⟨l, hl, rfl, ha⟩
+    rw [if_pos this, hb]
+    rfl
+
+example : PdfZoom.annots (PdfZoom.pageMatrix 1 ⟨10, 10, ⟨0, 0, 0, 0⟩, [], [], []⟩)
+      (([(⟨1, .internal, "a"⟩, ⟨0, 0, 1, 1⟩), (⟨2, .internal, "zz"⟩, ⟨0, 0, 1, 1⟩),
+         (⟨3, .attachment, "f"⟩, ⟨0, 0, 1, 1⟩)].map asLink).filter (keepLink ["a"])) =
+    [⟨.internal, "a", ⟨0, 10, 1, 9⟩⟩] := by decide +kernel
 
 end links
 
